@@ -127,6 +127,10 @@ class SigmaDetectionItem(ProcessingItemTrackingMixin, ParentChainMixin):
             field = None
             modifier_ids = list()
         else:  # key-value detection
+            if not isinstance(key, str):
+                raise sigma_exceptions.SigmaDetectionError(
+                    f"Detection item key '{ key }' must be a string", source=source
+                )
             field, *modifier_ids = key.split("|")
             if field == "":
                 field = None
